@@ -221,6 +221,41 @@ def _wrap_mpr():
 _wrap_mpr()
 
 
+def complete_simplex(Y, n, c1, c2):
+    """A tetrahedron of support differences of A - B that (up to GJK's tolerance) contains the origin, built from
+    the n live rows GJK stopped with (the origin lies in their hull): the harness' stand-in for what gjk() should
+    have handed over.  None if no such tetrahedron is found (touching contact in a vertex, flat difference)."""
+    Y = np.asarray(Y, dtype=float)
+
+    def sup(d):
+        return c1.support_function(d) - c2.support_function(-d)
+    P = [Y[i].copy() for i in range(n)]
+    if n == 2:
+        seg = P[1] - P[0]
+        axis = np.zeros(3)
+        axis[int(np.argmin(np.abs(seg)))] = 1.0
+        d = np.cross(seg, axis)
+        d = d / np.linalg.norm(d)
+        for dd in (d, -d, np.cross(seg / np.linalg.norm(seg), d), -np.cross(seg / np.linalg.norm(seg), d)):
+            w = sup(dd)
+            if float(np.dot(w - P[0], dd)) > 1e-9:
+                P.append(w)
+                break
+    if len(P) == 3:
+        nrm = np.cross(P[1] - P[0], P[2] - P[0])
+        ln = float(np.linalg.norm(nrm))
+        if ln > 0:
+            nrm = nrm / ln
+            for dd in (nrm, -nrm):
+                w = sup(dd)
+                if float(np.dot(w - P[0], dd)) > 1e-9:
+                    P.append(w)
+                    break
+    if len(P) != 4:
+        return None
+    return np.ascontiguousarray(np.array(P))
+
+
 _DUMMY = None
 
 
@@ -267,6 +302,13 @@ def run_op(op, s1, s2):
             if simplex is not None:
                 out["rows_supported"] = rows_supported(simplex, r1, r2)
             if d == 0.0:
+                if op.get("complete"):
+                    # replace GJK's work array by a proper tetrahedron of support differences built from the live rows
+                    simplex = complete_simplex(simplex, int(_gjk_info.get("n_points") or 0), c1, c2)
+                    if simplex is None:
+                        out["skipped"] = "no completed simplex"
+                        raise StopIteration
+                    out["completed_simplex"] = arr(simplex)
                 if op.get("flip"):
                     simplex = np.ascontiguousarray(np.asarray(simplex)[[0, 2, 1, 3]])
                 S = np.asarray(simplex, dtype=float)
@@ -298,6 +340,8 @@ def run_op(op, s1, s2):
                 out["changed_after_next_query"] = dict(early=early, late=late)
         else:
             raise ValueError(name)
+    except StopIteration:
+        pass
     except Timeout:
         out["exc"] = "TIMEOUT"
     except BaseException as e:  # noqa
